@@ -1040,8 +1040,8 @@ class StructOf(DataType):
 
     def check_type(self, value, allow_optional=False):
         try:
-            superfluous = set(dict(value)) - set(self.members)
-        except TypeError:
+            superfluous = set(value.keys()) - set(self.members)
+        except (TypeError, AttributeError):  # only mappings are accepted
             raise WrongTypeError(f'{type(value).__name__} can not be converted a StructOf') from None
         if superfluous - set(self.optional):
             raise WrongTypeError(f"struct contains superfluous members: {', '.join(superfluous)}")
